@@ -806,6 +806,10 @@ FAMILIES = [
     Family("fresh_process", eval_fresh, enumerate=enum_fresh, shards_quick=4, shards_thorough=8),
 ]
 
+from . import c05_polars as _plh  # noqa: E402
+
+FAMILIES += _plh.FAMILIES
+
 
 # ---------------------------------------------------------------------- selftest
 
